@@ -420,6 +420,10 @@ func runFaultSync(r *simkit.Run, c Cfg, mode string, planner planFunc) {
 		c02LongDigest(r, w)
 		return
 	}
+	if mode == "c02" && c.Case < 0 && r.Tape.Chance(1, 12, "appHash") {
+		c02AppHash(r, w)
+		return
+	}
 
 	cfg, plans := planner(r, c, w)
 	po := PubOpts{Name: "P1", NAds: cfg.preSynced, Discovery: cfg.discovery, Hosts: []string{"10.0.0.1:3104"}, Proto: cfg.proto}
